@@ -238,6 +238,8 @@ def run(ctx):
     # "upgrades are additive": a uniqueness constraint added by a schema step makes the upgrade fail on databases that violate it and
     # makes the unchanged INSERT OR REPLACE delete rows (C01's rule about the lease table's constraints)
     ctx.include("C01", rules=("R7",))
+    # "what is acknowledged is what is stored": the lease time and address in the reply are those of the lease the pool recorded
+    ctx.include("C10", rules=("R2",))
     _r10_migrated_columns(ctx, M)
     _r11_commit_is_checked(ctx, M)
     _r12_explicit_transactions_closed(ctx, M)
